@@ -62,6 +62,22 @@ def optRatJ : Option Rat → Json
   | none => Json.null
   | some q => ratJ q
 
+def getFlag (a : Json) (k : String) (dflt : Bool) : Except String Bool :=
+  match fldOpt a k with | none => pure dflt | some j => j.getBool?
+
+/-- one call of a history: `{"fn": "crop_dim" | "extend_dim" | "width", …}` with the arguments of the
+    single-call operations -/
+def getStep (s : Samples Datum) (j : Json) : Except String (Step Datum) := do
+  match ← fldStr j "fn" with
+  | "crop_dim" =>
+    return .crop (← fldOptRat j "start") (← fldOptRat j "stop") (← getFlag j "lc" true) (← getFlag j "rc" false)
+      ((← fldOptRat j "eps").getD defaultEps)
+  | "extend_dim" =>
+    return .extend (← fldOptRat j "start") (← fldOptRat j "stop") (← getFill j s) ((← fldOptRat j "eps").getD defaultEps)
+      (← getFlag j "lc" true) (← getFlag j "rc" false)
+  | "width" => return .width (← fldInt j "w") (← getFill j s) (← getPosOf j)
+  | f => .error s!"unknown history call {f}"
+
 def handle (op : String) (a : Json) : Except String Json := do
   match op with
   | "crop_dim" =>
@@ -101,6 +117,10 @@ def handle (op : String) (a : Json) : Except String Json := do
     | .ok (lo, hi), .ok w => return valJ (ratsJ [lo, hi, w])
     | .error e, _ => return araiseJ e
     | _, .error e => return araiseJ e
+  | "history" =>
+    let s ← getSamples a
+    let steps ← (← fldArr a "steps").mapM (getStep s)
+    return valJ (arrJ ((runChain (← fldOptRat a "step_attr") s steps).map (aexceptJ samplesJ)))
   | "noop" => return Json.null
   | _ => .error s!"C17: unknown op {op}"
 
